@@ -17,6 +17,8 @@ TEST_FILTER = "verif_n5_"
 TIMEOUT = 2400
 RELEASE = False
 MIRI = True
+# which part of the enumeration a Miri report belongs to (by the text of the case that was running)
+UB_KEYWORDS = {"mov_checked": " mov ", "scan_checked": " scan stride "}
 TRUSTED = ["Miri (nightly) as the detector of out-of-bounds accesses and other undefined behaviour",
            "BOUNDED: enumerated tape geometries (5), access windows (<= 5), shifts (+-1, 2, 3, 7, 40), scan strides (+-1, 2, 3), non-zero run lengths 0..4, cell types u8 and u32; debug-assertions (trampolined) noop"]
 HERE = os.path.dirname(os.path.abspath(__file__))
